@@ -182,7 +182,7 @@ static PoolVal genValue(Rng & rng, int domain)
 		const uint32_t c = rng.below(10);
 		if(c < 6) v.str = num((long long)rng.below((uint32_t)domain) + 60); // text of a number: meets VStore's text of ints
 		else if(c < 9) { const int len = (int)rng.below(4); for(int i = 0; i < len; ++i) v.str += (char)('a' + rng.below((uint32_t)(domain < 26 ? domain : 26))); }
-		else v.str = std::string(20 + rng.below(30), (char)('a' + rng.below(3)));
+		else { const size_t len = 20 + rng.below(30); const char ch = (char)('a' + rng.below(3)); v.str = std::string(len, ch); }
 	}
 	else {
 		// numbers of every kind share one small range (so std::hash, the identity on integers, collides across types)
